@@ -50,7 +50,7 @@ func c19Shapes() (cargen.Shape, cargen.Shape) {
 		blk(431_995, []cargen.TxShape{t([]int{0, 1}, nil, false, true)}, []cargen.TxShape{t([]int{2}, []int{0}, false, false), t(nil, nil, true, true)}),
 		blk(431_999, []cargen.TxShape{t([]int{1}, []int{2}, false, false),
 			// failed with an instruction error that has no payload, and with a transaction error that has none
-			{Accounts: []int{0}, Failed: true, FailKind: 1}, {Accounts: []int{2}, Failed: true, FailKind: 2}}),
+			{Accounts: []int{0}, Failed: true, FailKind: 1}, {Accounts: []int{2}, Failed: true, FailKind: 2}, {Accounts: []int{1}, Failed: true, FailKind: 3}}),
 	}}
 	e2 := cargen.Shape{Epoch: 2, Blocks: []cargen.BlockShape{
 		blk(0, []cargen.TxShape{t([]int{2}, nil, false, false), t([]int{0}, nil, true, false)}),
